@@ -125,6 +125,14 @@ CloseOldEnqueue ==
 Next == Dispatch \/ Take \/ ToR \/ ToS \/ Write \/ GoAway \/ CloseNew \/ (~OldClose /\ CloseNewEnqueue) \/ CloseOld \/ CloseOldEnqueue
 Spec == Init /\ [][Next]_vars
 
+(* Liveness: the hub goroutine, the socket writer and the Close() calls keep running (weak fairness); the  *)
+(* environment may stop announcing events and the client may or may not go away                            *)
+FairSpec == Spec /\ WF_vars(Take) /\ WF_vars(ToR) /\ WF_vars(ToS) /\ WF_vars(Write)
+                 /\ WF_vars(CloseNew) /\ WF_vars(CloseNewEnqueue) /\ WF_vars(CloseOld) /\ WF_vars(CloseOldEnqueue)
+(* "without causing any other listener to miss an event": every announced event reaches R in the end,     *)
+(* whatever S and its client do                                                                            *)
+EventuallyDelivered == \A k \in 1 .. MaxEvents : (n >= k) ~> (Len(rec) >= k)
+
 (***************************************************************************)
 (* Properties                                                              *)
 (***************************************************************************)
